@@ -223,6 +223,10 @@ def judge(ctx, sid, s, model, st, count):
     if sp["setup"] == "newclient" and o.get("newclient-init-request") != "invokeWithLayer(initConnection(help.getConfig))":
         return bad("newclient-init", "NewClient's initialisation request is not invokeWithLayer(initConnection(help.getConfig))",
                    "invokeWithLayer(layer, initConnection(..., help.getConfig))", str(o.get("newclient-init-request")))
+    if sp["setup"] == "newclient" and o.get("newclient-ipv6-entry") != "ok":
+        return bad("newclient-ipv6-dc", "the DC table NewClient builds from help.getConfig holds, for the IPv6 option {id 14, 2001:db8::e, port 443}, "
+                   "an address that cannot be taken apart into that host and port again: a PHONE_MIGRATE_14 could not be followed",
+                   "[2001:db8::e]:443", str(o.get("newclient-ipv6-entry")))
     mm = model.get("m" + sid)
     me = model.get("e" + sid)
     if not mm or mm[0] in ("P", "ERR") or not me or me[0] != "ok":
